@@ -128,7 +128,7 @@ PROPS = {
         families=[('floor', 400, 12000, 'small', 'large')],
         rule='F_floor scenarios: layered production lines (sources incl. cycle 0 and finite budgets, handlers, processors with resources/callbacks/work orders, buffers with delay and capacity, batchers, decision gates, flow controllers, shared groups reached through several paths incl. nested and re-entrant use, sinks), scripted failures/shutdowns/restores/blocking/capacity changes/budget adjustments/one-shot offsets/mid-run rewiring/devices constructed mid-run with upstream devices named in the constructor, many single steps then runs, generated from VERIF_SEED (corpus/floor first); '
              'non-trivial = a gate or group path is present and at least 6 parts were received; distinct by scenario text',
-        explanation='Local routing theorems (offers go to exactly the configured downstream neighbours, longest idle first; gates and blocked inputs refuse; history extended by the accepting device; identities preserved); and, for every exception-free history incl. every state inside a run, a handler/processor/sink that reports a waiting-for-part time (the sort key) holds nothing in either slot (Proofs/FloorWait.v, premise: the initialised world passes the computable wait_okb). Whole-route history / group path matching decided by the routing monitor and lock-step. PARTIAL.',
+        explanation='Local routing theorems (offers go to exactly the configured downstream neighbours, longest idle first; gates and blocked inputs refuse; history extended by the accepting device; identities preserved); and, for every exception-free history incl. every state inside a run, a handler/processor/sink that reports a waiting-for-part time (the sort key) holds nothing in either slot (Proofs/FloorWait.v, premise: the initialised world passes the computable wait_okb). and, in every reachable state of every well-formed scenario, the routing history of every part ends with the device that holds it (Proofs/FloorHist.v: with the extension lemma, histories grow by exactly the traversed devices). Group path matching (leave through the entering path) and the arrival order over a whole run are decided by the routing monitor and lock-step. PARTIAL.',
         assumptions=['well-posed layouts', 'groups nested one level deep at most']),
     'C11': dict(
         vfile='Props/C11.v', ties=['Tie/TieEnv.v', 'Tie/TieFloor.v', 'Tie/TieRM.v'],
@@ -254,9 +254,9 @@ LEVELS = {
         design_ref='DESIGN.md sections 0.3 and 8, C06', technique='Coq proof (timer and interruption lemmas + C07 event-queue theorems + device/event-queue count invariant over a step decomposition with local blocks) + lock-step correspondence + cycle-time monitor',
         note='Partial: the arithmetic composition over a run is not a single theorem; sources are outside the count invariant (their cycle timer is covered by the local lemmas and the monitor).'),
     'C08': dict(
-        text='PARTIAL. Machine-checked: offers go to a permutation of the configured downstream list sorted by idle-since time; gates/blocked inputs refuse without any change; accepted part history = offered history ++ [device]; identities never rewritten; a device reporting a waiting-for-part time has both slots empty in every exception-free reachable state (the invariant restored by the D9 repair; carried by the strict steps of FloorTimer.v). Whole-route statements decided by the routing monitor + lock-step.',
+        text='PARTIAL. Machine-checked: offers go to a permutation of the configured downstream list sorted by idle-since time; gates/blocked inputs refuse without any change; accepted part history = offered history ++ [device]; identities never rewritten; a device reporting a waiting-for-part time has both slots empty in every exception-free reachable state (the invariant restored by the D9 repair; carried by the strict steps of FloorTimer.v); the routing history of every held part ends with its holder in every reachable state (FloorHist.v, a fifth step decomposition). Group-path matching and whole-run statements decided by the routing monitor + lock-step.',
         design_ref='DESIGN.md sections 0.3 and 8, C08', technique='Coq proof (routing lemmas: permutation + sortedness of the offer order, refusal guards; waiting-stamp invariant by induction over fine-grained reachability) + lock-step correspondence + routing monitor',
-        note='Partial: whole-route history and group-path matching not theorems.'),
+        note='Partial: group-path matching (a part leaves a group through the path it entered) and the route as a whole (a ghost list of traversed devices) are not theorems; last-entry = holder and one-step extension are.'),
     'C11': dict(
         text='Machine-checked world-level invariant (pools, reservation objects and device holdings agree) preserved by every world step, event, call and system step; exact holdings; no sharing; acceptance needs the reservation; failure releases; shutdown keeps. Machine-checked queue-level link invariant (Proofs/FloorLink.v, FloorIdle.v): in every state reached without an exception, a holder with no part in process owns an uncancelled RELEASE event pending now (or paused while it is shut down); so whenever time advances no idle operational processor holds resources.',
         design_ref='DESIGN.md sections 0.3 and 8, C11', technique='Coq proof (world-level invariant over labelled world steps, using the C09 operation specifications; device/event-queue link invariant over a second step decomposition with compound steps) + lock-step correspondence + resource monitor',
